@@ -463,7 +463,12 @@ class Builder:
                 # a max_volume that is not a short binary fraction (950.3): its neighbours in single and half precision
                 import numpy as _np
                 cands += [F(float(_np.float32(float(M)))), F(float(_np.float16(float(M)))), F(float(_np.float32(float(M)))), F(float(_np.float16(float(M))))]
-            if x < 0.1:
+            if self.reconfigured and self.vol_memory and rng.random() < self.profile.get("p_reuse_after_reconfigure", 0.0):
+                # the very volumes transferred before the worklist was reconfigured
+                v = rng.choice(self.vol_memory)
+                if v > room:
+                    v = room if rng.random() < 0.5 else grid(rng, 0, room)
+            elif x < 0.1:
                 v = F(0)
             elif x < 0.55:
                 v = rng.choice(self.vol_memory if (self.reconfigured and self.vol_memory and rng.random() < 0.7) else cands)
